@@ -1,13 +1,14 @@
 (* Correspondence for C04 (group_by_key is an exact partition of its input by key).
    kind "prog": in = [src, steps, partitions_or_null], out = observed outcome.
-   agree : observed = engine model (modulo canon after a hash step);
+   agree : observed = engine model (comparison mode Canon.cmp_of: exact sequence, multiset of exact rows after a hash step, nested lists as bags only when Canon.lists_arbitrary);
    prop  : against the independent list semantics.  Program ending in group_by_key: with
            `input` = Denote of the prefix, the observed groups have pairwise distinct keys, the
            key set is that of `input`, flattening the groups gives `input` back as a multiset, and
            each key's list is exactly `values_of k input` in input order (as a multiset when the
-           prefix itself contains a hash step, whose row order is arbitrary).  Any other program
+           prefix itself contains a hash step, whose row order is arbitrary; values are compared
+           exactly unless Canon.lists_arbitrary).  Any other program
            (group_by_key inside join sides, downstream steps, distinct_per_key): observed =
-           Denote of the whole program modulo canon.
+           Denote of the whole program in the comparison mode Canon.cmp_of.
    known : reorder class (not generated on purpose for this property). *)
 From Coq Require Import List ZArith Bool String.
 From IB Require Import Util.J Engine.Val Engine.Lang Engine.Denote Engine.Decode Engine.Canon.
@@ -19,14 +20,14 @@ Definition gbk_prop (s : src) (steps : list step) (o : obs) : bool :=
       let pre := but_last steps in
       match o, ref_outcome s pre with
       | OOk rows, OOk input =>
+          let bm := bag_mode steps in
           forallb is_group_row rows
           && keys_unique rows
-          && canon_eqb (map vfst rows) (keys_of input)
-          && canon_eqb (flat_map (gf GElems) rows) input
+          && rows_cmp bm (map vfst rows) (keys_of input)
+          && rows_cmp bm (flat_map (gf GElems) rows) input
           && forallb (fun r =>
-                        let vs := vlist (vsnd r) in
-                        let want := values_of (vfst r) input in
-                        if order_exact pre then rows_eqb vs want else canon_eqb vs want) rows
+                        rows_cmp (if order_exact pre then CExact else bm)
+                                 (vlist (vsnd r)) (values_of (vfst r) input)) rows
       | _, _ => meets_ref s steps o
       end
   | _ => meets_ref s steps o
